@@ -211,6 +211,25 @@ Theorem C08_ws_quiescent_refuted_before_fix_cancel :
             all_gone c = false /\ finished c = false /\ registered c = true.
 Proof. exact quiescent_refuted_before_fix_cancel. Qed.
 
+(** what (I) rests on.  The write loop's deferred calls run in the order conn.Close(), close(writeLoopDone),
+    finishClosing(): whenever the write loop has returned the socket is closed — that is what ends a read loop parked
+    in ReadMessage when the peer neither answers the close frame nor drops ([IReadFail]), and finishClosing waits for
+    the read loop.  With the order swapped (socket closed last) a peer that stays connected and silent keeps the
+    connection for ever. *)
+Theorem C08_ws_socket_closed_before_finish : forall cap fixed c,
+  reachable cap fixed c -> writer_done c = true -> conn_closed c = true.
+Proof. exact socket_closed_before_finish. Qed.
+Theorem C08_ws_quiescent_refuted_when_socket_closed_last :
+  exists c, arun_close_last 100 init_cfg silent_peer_run = Some c /\ settling c = true /\
+            (forall l, internal l = true -> astep_close_last 100 c l = None) /\
+            all_gone c = false /\ finished c = false /\ registered c = true.
+Proof. exact quiescent_refuted_when_socket_closed_last. Qed.
+(** sendMessage never gives up while the write loop lives: a full queue is back-pressure, not loss *)
+Theorem C08_ws_send_fails_only_after_writer_exit : forall cap c l c',
+  astep cap true c l = Some c' ->
+  (l = IRSendFail \/ exists i, l = IGDataFail i \/ l = IGCompleteFail i) -> writer_done c = true.
+Proof. exact send_fails_only_after_writer_exit. Qed.
+
 (** and such a run exists *)
 Theorem C08_ws_quiescent_run_exists : forall cap, 1 <= cap -> forall n c,
   mu c <= n -> reachable cap true c -> settling c = true ->
@@ -334,6 +353,9 @@ Print Assumptions C08_ws_id_reuse_refuted_before_fix.
 Print Assumptions C08_ws_keepalive_refuted_before_fix.
 Print Assumptions C08_ws_quiescent.
 Print Assumptions C08_ws_quiescent_run_exists.
+Print Assumptions C08_ws_socket_closed_before_finish.
+Print Assumptions C08_ws_quiescent_refuted_when_socket_closed_last.
+Print Assumptions C08_ws_send_fails_only_after_writer_exit.
 Print Assumptions C08_ws_close_completes_upon_cancellation.
 Print Assumptions C08_ws_write_failure_begins_closing.
 Print Assumptions C08_ws_quiescent_refuted_before_fix_cancel.
